@@ -62,7 +62,7 @@ func PathNext(fl *Flow, p *Path) (next string, errSet bool, site token.Pos) {
 		}
 		return ""
 	}
-	for _, e := range p.Ev {
+	for ei, e := range p.Ev {
 		if e.Kind != EvAssign || e.Deferred {
 			continue
 		}
@@ -89,7 +89,9 @@ func PathNext(fl *Flow, p *Path) (next string, errSet bool, site token.Pos) {
 					next = "?"
 				}
 			case reqField(fl.Info, l, "Err"):
-				if rhs != nil && ValueKey(fl.Info, rhs) == "nil" {
+				// Err pre-empts Next only when it is non-nil: a value the path itself established to be nil
+				// (`if err == nil { … req.Err = err }`) does not stop the machine
+				if rhs != nil && NilnessAt(fl.Info, p, ei, rhs) == "nil" {
 					errSet = false
 				} else {
 					errSet = true
